@@ -5,7 +5,7 @@ from evalutil import *
 
 ID = "C10"
 LEVEL = "proof"
-MODULES = ["H3Proofs.Props.C10", "H3Proofs.Props.C10Res1", "H3Proofs.Props.C10Valid", "H3Proofs.Props.C11Pent"]
+MODULES = ["H3Proofs.Props.C10", "H3Proofs.Props.C10Res1", "H3Proofs.Props.C10Valid", "H3Proofs.Props.C11Pent", "H3Proofs.Props.C10Gen"]
 THEOREMS = "auto"
 ASSUMPTIONS = ["model of cellsToDirectedEdge / getDirectedEdgeOrigin / getDirectedEdgeDestination / "
                "isValidDirectedEdge / originToDirectedEdges over generated bit macros, tied by exact correspondence",
@@ -49,11 +49,16 @@ def streams(rng, tier):
         for d in range(0, 8):
             e = (h & ~(0xff << 56)) | (2 << 59) | (d << 56)
             ops += [f"edgevalid {gen.hx(e)}", f"edgedest {gen.hx(e)}", f"edgeorigin {gen.hx(e)}", f"edgecells {gen.hx(e)}"]
+            if d in (0, 1, 4, 7):
+                # the c2lean translations of isValidDirectedEdge / getDirectedEdgeOrigin / maxFaceCount on the same index
+                ops.append(f"genfn3 {gen.hx(e)} {gen.hx(rng.getrandbits(64))} {gen.hx(rng.getrandbits(64))}")
         ops.append(f"edge {x} {gen.hx(gen.rand_cell(rng, res=(h >> 52) & 15))}")
     for _ in range(2000):
         m = gen.malformed(rng)
         e = (m & ~(0xf << 59)) | (rng.randrange(16) << 59)
         ops += [f"edgevalid {gen.hx(e)}", f"edgedest {gen.hx(e)}", f"edgeorigin {gen.hx(e)}"]
+        if rng.random() < 0.25:
+            ops.append(f"genfn3 {gen.hx(e)} {gen.hx(rng.getrandbits(64))} {gen.hx(rng.getrandbits(64))}")
     return [("edges", ops)]
 
 
